@@ -18,8 +18,7 @@ RULE = ("cases = pairs of generated 3D plotfiles on a common mesh x layout relat
         "non-monotone or a selection is used")
 ASSUMPTIONS = ["generator/refparse trusted base", "pool shim M1 with shuffled schedules",
                "a pair with the same boxes in another order: 'refuse or correct' (statement silent)"]
-REQUIRED_OBS = {"combined": 80, "fn:parallel_combine_by_binfile": 5, "fn:parallel_combine_by_boxes_offsets": 20,
-                "mismatched_refused": 10, "cli_runs": 5, "first_nonmonotone": 3}
+REQUIRED_OBS = {"combined": 80, "mismatched_refused": 10, "cli_runs": 5, "first_nonmonotone": 3}
 TIMEOUT = {"quick": 300, "thorough": 1500}
 RELS = ["same", "order", "other", "single"]
 
@@ -46,7 +45,9 @@ def setup():
     C = common.repo_module("amr_kitchen.combine.combine")
     for name in ("parallel_combine_by_binfile", "parallel_combine_by_binfile_offsets",
                  "parallel_combine_by_boxes_offsets"):
-        orig = getattr(C, name)
+        orig = getattr(C, name, None)
+        if orig is None:
+            continue
 
         def mk(orig, name):
             def w(args):
